@@ -545,6 +545,8 @@ def r09g(ctx, run):
     kinds = [
         ("integer literal", V("Expr::IntLiteral", {"0": 5}), weak_u, u8, "made"), ("integer literal at i64", V("Expr::IntLiteral", {"0": 5}), weak_u, i64, "made"),
         ("float literal", V("Expr::FloatLiteral", {"0": Term("f")}), weak_f, f32, "made"),
+        ("integer literal at ?u8", V("Expr::IntLiteral", {"0": 5}), weak_u, V("Ty::Optional", {"sub_ty": u8}), "payload"),
+        ("integer literal at ??u8", V("Expr::IntLiteral", {"0": 5}), weak_u, V("Ty::Optional", {"sub_ty": V("Ty::Optional", {"sub_ty": u8})}), "payload"),
         ("index expression `arr[i]`", V("Expr::Index", {"source": Term("arr"), "index": Term("i")}), weak_u, u8, "read"),
         ("index expression `arr[i]` at i64", V("Expr::Index", {"source": Term("arr"), "index": Term("i")}), weak_u, i64, "read"),
         ("member expression `s.a`", V("Expr::Member", {"previous": Term("s"), "name": Term("a")}), weak_u, i64, "read"),
@@ -569,7 +571,12 @@ def r09g(ctx, run):
             continue
         n += 1
         rec = types.d.get(E)
-        if how == "made":
+        if how == "payload":
+            # a literal placed where an optional is expected is the optional's payload: it is recorded at the number type inside all the `?`s
+            run.check(rec == u8, fn.site(), "%s: recorded %s" % (desc, c07_name(rec)), fn.qual, "retype:" + desc, fn.file, fn.ln,
+                      "an %s is recorded at the type %s: a literal is a number, the code generator asks its type for a number type and panics on anything else "
+                      "(`a : ??i32 = 5;`)" % (desc, c07_name(rec) if not (isinstance(rec, Variant) and rec.last == "Optional") else "?" + c07_name(rec.payload["sub_ty"])))
+        elif how == "made":
             run.check(rec == new, fn.site(), "%s: %s -> recorded %s" % (desc, found.last, rec.last if isinstance(rec, Variant) else rec), fn.qual, "retype:" + desc, fn.file, fn.ln,
                       "a %s of weak type is not given the requested type (recorded %r)" % (desc, rec))
         else:
